@@ -124,7 +124,9 @@ def generate(seed, tier):
     simple2 = [sg for sg in signatures(2) if sg and all(k in ('PK', 'KO') for _, k, _ in sg)]
     for sg in simple2:
         for _ in range(2 if tier == 'quick' else 6):
-            names = rnd.sample(RESERVED, len(sg))
+            names = rnd.sample(RESERVED[1:], len(sg))
+            if _ == 0:
+                names[0] = 'ctx'          # the name the harness registers views' context under
             ren = [(names[i], k, d) for i, (_, k, d) in enumerate(sg)]
             for cm in ctx_modes(ren):
                 if cm[0] == 'view' and 'self' in names:
@@ -134,7 +136,7 @@ def generate(seed, tier):
     return cases
 
 
-RESERVED = ['method', 'self', 'params', 'context', 'request', 'name', 'func', 'args', 'kwargs', 'cls', 'id', 'exclude', 'positional']
+RESERVED = ['ctx', 'method', 'self', 'params', 'context', 'request', 'name', 'func', 'args', 'kwargs', 'cls', 'id', 'exclude', 'positional']
 
 
 def pyfun(sig):
